@@ -67,6 +67,10 @@ HARNESSES: Dict[str, dict] = {
         "pre": [("c.1", 0)], "pubs": [[("@close",), ("c.1", 0), ("@connect",), ("c.1", 1)], [("@connect",), ("c.2", 0), ("@close",)]], "subs": ["c.*"], "drain": ["*"]},
     "H13-publish-before-anyone-connects": {
         "pre": [("c.1", 0), ("c.2", 0)], "pubs": [[("@connect",), ("c.1", 0)], [("@connect",), ("@close",), ("@connect",)]], "subs": [], "preopen": ["c.2"], "drain": ["*"]},
+    # beyond the small scope: 18 channels with one pending message each and a consumer that takes ONE message per subscription and
+    # leaves (the master's polling pattern: subscribe, handle one, break, close, poll again)
+    "H14-eighteen-channels-polling-consumer": {
+        "pre": [(f"k.{i:02d}", 0) for i in range(18)], "pubs": [[("k.03", 1), ("k.17", 1)]], "subs": [], "pollers": ["k.*"], "drain": ["*"]},
     "H10-preopened-exact-and-concurrent-subscriber": {
         "pre": [], "pubs": [[("c.1", 0)], [("c.1", 0)]], "subs": ["c.?"], "preopen": ["c.1"], "drain": ["*"]},
 }
@@ -134,6 +138,25 @@ def run_harness(name: str, prefix: List[int]) -> sched.Execution:
                 for m in t.subscribe(pat):
                     got.append(ident_of(m))
             s.spawn(tid, sub)
+            tid += 1
+        for qi, pat in enumerate(h.get("pollers", [])):
+            got_p: List[Any] = []
+            consumed[f"Q{qi}:{pat}"] = got_p
+
+            def poller(pat=pat, got_p=got_p):
+                for _ in range(200):  # horizon: far more polls than messages
+                    sub_ = t.subscribe(pat)
+                    took = False
+                    for m in sub_:
+                        got_p.append(ident_of(m))
+                        took = True
+                        break
+                    close = getattr(sub_, "close", None)
+                    if callable(close):
+                        close()
+                    if not took:
+                        break
+            s.spawn(tid, poller)
             tid += 1
         x = s.run()
         _CUR[0] = None
@@ -226,13 +249,13 @@ def check(tier: str, seed: int) -> Result:
     if tier == "quick":
         plan = [("H1-two-publishers-new-channel", 2), ("H2-publishers-and-subscriber", 1), ("H3-routing-two-channels", 1),
                 ("H4-existing-channel", 1), ("H6-two-subscribers", 1), ("H7-one-message-each-two-new-channels", 1),
-                ("H8-one-publisher-one-subscriber", 2), ("H9-subscription-opened-before-channels-exist", 1), ("H10-preopened-exact-and-concurrent-subscriber", 1), ("H11-message-shapes", 1), ("H12-connect-and-close-around-traffic", 1), ("H13-publish-before-anyone-connects", 1)]
+                ("H8-one-publisher-one-subscriber", 2), ("H9-subscription-opened-before-channels-exist", 1), ("H10-preopened-exact-and-concurrent-subscriber", 1), ("H11-message-shapes", 1), ("H12-connect-and-close-around-traffic", 1), ("H13-publish-before-anyone-connects", 1), ("H14-eighteen-channels-polling-consumer", 0)]
         cap = 400000
     else:
         plan = [("H1-two-publishers-new-channel", 3), ("H2-publishers-and-subscriber", 3), ("H3-routing-two-channels", 2),
                 ("H4-existing-channel", 3), ("H5-three-publishers", 2), ("H6-two-subscribers", 2),
                 ("H7-one-message-each-two-new-channels", 3), ("H8-one-publisher-one-subscriber", 3),
-                ("H9-subscription-opened-before-channels-exist", 2), ("H10-preopened-exact-and-concurrent-subscriber", 3), ("H11-message-shapes", 2), ("H12-connect-and-close-around-traffic", 2), ("H13-publish-before-anyone-connects", 2)]
+                ("H9-subscription-opened-before-channels-exist", 2), ("H10-preopened-exact-and-concurrent-subscriber", 3), ("H11-message-shapes", 2), ("H12-connect-and-close-around-traffic", 2), ("H13-publish-before-anyone-connects", 2), ("H14-eighteen-channels-polling-consumer", 1)]
         cap = 3000000
     jobs = []
     per: Dict[str, dict] = {}
